@@ -50,6 +50,22 @@ def gen(rng, tier):
                         t, a = fmt_value(rng, w, n)
                         width = rng.choice(["-", "-", 0, 1, 5, 12, 40, rng.randrange(0, 41), 255])
                         yield f"fmt {s}{cfg} {tr} {fl} {width} {hx(a)}", t
+    yield from _wide(rng, tier)
+
+
+def _wide(rng, tier):
+    """very wide values (4096 / 8192 bits): decimal exponents >= 1000, long digit strings"""
+    for cfg in (["64x64"] if tier != "thorough" else ["64x64", "64x128", "8x64"]):
+        w, n = wn(cfg)
+        W = w * n
+        M = 1 << W
+        vals = [M - 1, M >> 1, (M >> 1) - 1, 10 ** 1000 % M, 25 * 10 ** 1100 % M, 10 ** 999 % M, 7, pat(-25 * 10 ** 1100, W)]
+        for s in "ui":
+            for tr in TRAITS:
+                for a in vals:
+                    fl = rng.choice(FLAGS)
+                    width = rng.choice(["-", 0, 12, 1300])
+                    yield f"fmt {s}{cfg} {tr} {fl} {width} {hx(a % M)}", "very-wide"
 
 
 def post(ctx, lines, R, mo_sp):
